@@ -67,12 +67,19 @@ structure Operands where
 /-- `str::trim_end_matches('0')` -/
 def trimEndZeros (bs : Bytes) : Bytes := (bs.reverse.dropWhile (· == 48)).reverse
 
+/-- `if input.starts_with('-') { &input[1..] } else { &input }` -/
+def stripMinus : Bytes → Bytes
+  | 45 :: r => r
+  | bs => bs
+
+/-- the optional `+` sign integer parsing accepts -/
+def stripPlus : Bytes → Bytes
+  | 43 :: r => r
+  | bs => bs
+
 /-- `u64::from_str`: ASCII digits (an optional leading `+`), value ≤ `u64::MAX` -/
 def u64FromStr (bs : Bytes) : Option Nat :=
-  let body := match bs with
-    | 43 :: r => r
-    | _ => bs
-  match digitsOf body with
+  match digitsOf (stripPlus bs) with
   | some ds => if digitsToNat ds ≤ u64Max then some (digitsToNat ds) else none
   | none => none
 
@@ -80,9 +87,7 @@ def u64FromStr (bs : Bytes) : Option Nat :=
 panic by `expect`).  `f64::from_str(abs_str)` is modelled on decimal syntax only (`parseDec`); the
 function is only ever applied to `display d`. -/
 def operandsOfStr (input : Bytes) : Option Operands :=
-  let absStr := match input with
-    | 45 :: r => r
-    | _ => input
+  let absStr := stripMinus input
   match parseDec absStr with
   | none => none
   | some absVal =>
@@ -124,12 +129,9 @@ def operandsOf (n : FluentNumber) : Option Operands :=
 /-- CLDR operands `n i v w f t` of a decimal string `-?int(.frac)?` as the user sees it (TR35
 "Operands"): `none` when the text is not of that form.  (`1.` is read as `1` with no fraction.) -/
 def cldrOperands (printed : Bytes) : Option Operands :=
-  let absStr := match printed with
-    | 45 :: r => r
-    | _ => printed
-  let (i, f) := splitAtDot absStr
-  let fb := f.getD []
-  match digitsOf i, (if fb.isEmpty then some [] else digitsOf fb) with
+  let absStr := stripMinus printed
+  let fb := (splitAtDot absStr).2.getD []
+  match digitsOf (splitAtDot absStr).1, (if fb.isEmpty then some [] else digitsOf fb) with
   | some id, some fd =>
     some ⟨⟨false, id, fd⟩, digitsToNat id, fd.length, (stripTrailingZeros fd).length,
           digitsToNat fd, digitsToNat (stripTrailingZeros fd)⟩
@@ -330,9 +332,11 @@ def crateRule (lang : String) (ty : NumType) : Rule :=
 /-- `types/plural.rs` `construct`: `negotiate_languages(&[lang], get_locales(type), Some("en"), Lookup)[0]`.
 Region/script/variants are dropped by the lookup; a language without rules falls back to `en`. -/
 def ruleLocale (locale : String) : String :=
-  match locale.splitOn "-" with
-  | l :: _ => if knownLanguages.contains l then l else "en"
-  | [] => "en"
+  -- the language subtag: the bytes before the first `-`
+  let lang := (strBytes locale).takeWhile (· != 45)
+  match knownLanguages.find? (fun l => strBytes l == lang) with
+  | some l => l
+  | none => "en"
 
 /-- `pr.0.select(b)`: operands, then the rule closure; `none` = the Rust code panics -/
 def pluralCategoryWith (rule : NumType → Rule) (n : FluentNumber) : Option Category :=
